@@ -381,9 +381,9 @@ func randVerdict(r *hx.Rng) verdict {
 	return full[r.Intn(len(full))]
 }
 
-// Run: corpus first, then ALL chains of length <= 2 over the full verdict alphabet x 3 phases (thorough: + length 3
-// over the 7 pure verdicts + hijack-and-continue), then random longer chains; the environment of each case is drawn
-// from the seed.
+// Run: corpus first, then ALL chains of length <= 2 over the full verdict alphabet x 3 phases (thorough: + all chains
+// of length 3 whose third filter has a one-verdict script; quick: a seeded sample of those), then random longer
+// chains; the environment of each case is drawn from the seed.
 func Run(c *hx.Ctx) {
 	parts, part := 1, 0
 	for i := 0; i+1 < len(c.Args); i++ {
@@ -396,6 +396,9 @@ func Run(c *hx.Ctx) {
 	} else {
 		parts = 1
 	}
+	// hx.Rng streams of neighbouring seeds are shifts of one another: fork twice so that the harness processes of one
+	// thorough run (seeds s*1000+k) do not fall into step
+	rng := c.Rng.Fork().Fork()
 	var cases []*kase
 	add := func(k *kase) { cases = append(cases, k) }
 	plain := func(k *kase) *kase {
@@ -422,29 +425,35 @@ func Run(c *hx.Ctx) {
 	n := 0
 	sel := func() bool { n++; return n%parts == part }
 	add(&kase{})
-	randEnv(c.Rng, cases[len(cases)-1])
+	randEnv(rng, cases[len(cases)-1])
 	for _, a := range fl {
 		if sel() {
 			k := &kase{recv: []rfilter{a}}
-			randEnv(c.Rng, k)
+			randEnv(rng, k)
 			add(k)
 		}
 		for _, b := range fl {
 			if sel() {
 				k := &kase{recv: []rfilter{a, b}}
-				randEnv(c.Rng, k)
+				randEnv(rng, k)
 				add(k)
 			}
 		}
 	}
+	if !c.Thorough() {
+		for i := 0; i < 3000; i++ {
+			k := &kase{recv: []rfilter{fl[rng.Intn(len(fl))], fl[rng.Intn(len(fl))], fl[rng.Intn(len(fl))]}}
+			randEnv(rng, k)
+			add(k)
+		}
+	}
 	if c.Thorough() {
-		f3 := filtersOver(append(append([]verdict{}, pure...), verdict{"h", 403, sC}))
-		for _, a := range f3 {
-			for _, b := range f3 {
-				for _, d := range f3 {
+		for _, a := range fl {
+			for _, b := range fl {
+				for _, d := range fl {
 					if sel() && len(d.script) == 1 { // third filter with a one-verdict script keeps the cube affordable
 						k := &kase{recv: []rfilter{a, b, d}}
-						randEnv(c.Rng, k)
+						randEnv(rng, k)
 						add(k)
 					}
 				}
@@ -452,20 +461,20 @@ func Run(c *hx.Ctx) {
 		}
 	}
 	// random longer chains, mostly-continue with deviations
-	for i := 0; i < c.N(400, 2500); i++ {
+	for i := 0; i < c.N(1500, 4000); i++ {
 		k := &kase{}
-		ln := 3 + c.Rng.Intn(6)
+		ln := 3 + rng.Intn(6)
 		for j := 0; j < ln; j++ {
-			f := rfilter{phase: px.Phase(c.Rng.Intn(3))}
-			for s := 0; s < 1+c.Rng.Intn(3); s++ {
-				f.script = append(f.script, randVerdict(c.Rng))
+			f := rfilter{phase: px.Phase(rng.Intn(3))}
+			for s := 0; s < 1+rng.Intn(3); s++ {
+				f.script = append(f.script, randVerdict(rng))
 			}
-			if c.Rng.Chance(15) {
+			if rng.Chance(15) {
 				f.script = nil
 			}
 			k.recv = append(k.recv, f)
 		}
-		randEnv(c.Rng, k)
+		randEnv(rng, k)
 		add(k)
 	}
 
